@@ -148,7 +148,7 @@ func runC06(c *Ctx) {
 		return
 	}
 	grid := c06Grid()
-	reps := c.ArgInt("reps", 1)
+	reps := c.ArgInt("reps", c.Pick(3, 1))
 	idx := 0
 	for rep := 0; rep < reps; rep++ {
 		for gi, sc := range grid {
@@ -164,8 +164,8 @@ func runC06(c *Ctx) {
 			c.J.Log("CASE %s %s", Case("grid", idx), sc.String())
 			o := runLife(c, sc, "C06", procs, salt, rep, gi)
 			reportLife(c, "C06", "grid", idx, sc, o)
-			if o.Inconclusive != "" {
-				return // do not let one undecided scenario cascade through the batch
+			if o.Inconclusive != "" || c.R.NumViolations() > 12 {
+				return // do not let one undecided scenario (or a tree that fails everywhere) cascade through the batch
 			}
 			if o.Fingerprint != "" {
 				c.R.Class(o.Fingerprint)
